@@ -128,7 +128,7 @@ End AMapLemmas.
 Definition vals_ok (m : smap) : Prop := forall k v, am_get m k = Some v -> v <> [].
 
 Definition data_ok (d : adata) : Prop :=
-  (forall m, d_store d = Some m -> vals_ok m) /\ (d_isc d = false -> d_own d = None).
+  (forall m, d_store d = Some m -> vals_ok m) /\ (d_isc d = false -> d_own d = None /\ d_dep d = []).
 
 Definition store_normal (d : adata) : Prop := d_store d <> Some [].
 
@@ -142,7 +142,7 @@ Definition astate_ok (h : heap) (s : astate) : Prop :=
 
 Lemma snap_ok_mono h l x : snap_ok h x -> snap_ok (h ++ l) x.
 Proof.
-  intros (H1 & H2 & H3). repeat split; try assumption; try apply H2.
+  intros (H1 & H2 & H3). split; [|split; assumption].
   rewrite nth_error_app1; [assumption|]. apply nth_error_Some. congruence.
 Qed.
 
@@ -176,37 +176,37 @@ Proof.
 Qed.
 
 Lemma data_ok_empty : data_ok empty_data.
-Proof. split; cbn; [discriminate|reflexivity]. Qed.
+Proof. split; cbn; [discriminate|split; reflexivity]. Qed.
 
 Lemma abs_snap_data d : abs (snap_data d) = abs d.
-Proof. destruct d as [b [[|p r]|] c o f]; reflexivity. Qed.
+Proof. destruct d as [b [[|p r]|] c o f dp]; reflexivity. Qed.
 
 Lemma snap_data_normal d : store_normal (snap_data d).
-Proof. destruct d as [b [[|p r]|] c o f]; cbn; unfold store_normal; cbn; congruence. Qed.
+Proof. destruct d as [b [[|p r]|] c o f dp]; cbn; unfold store_normal; cbn; congruence. Qed.
 
 Lemma snap_data_idem d : store_normal d -> snap_data d = d.
 Proof.
-  destruct d as [b [[|p r]|] c o f]; unfold store_normal; cbn; intro H;
+  destruct d as [b [[|p r]|] c o f dp]; unfold store_normal; cbn; intro H;
     try reflexivity. now elim H.
 Qed.
 
 Lemma data_ok_snap_data d : data_ok d -> data_ok (snap_data d).
 Proof.
-  destruct d as [b [[|p r]|] c o f]; intros [H1 H2]; split; cbn in *; try assumption; discriminate.
+  destruct d as [b [[|p r]|] c o f dp]; intros [H1 H2]; split; cbn in *; try assumption; discriminate.
 Qed.
 
 Lemma is_empty_snap_data d : is_empty (snap_data d) = l_is_empty (abs d).
-Proof. destruct d as [b [[|p r]|] c o f]; reflexivity. Qed.
+Proof. destruct d as [b [[|p r]|] c o f dp]; reflexivity. Qed.
 
 Lemma is_empty_normal d : store_normal d -> is_empty d = l_is_empty (abs d).
 Proof. intro H. rewrite <- is_empty_snap_data. now rewrite snap_data_idem. Qed.
 
 Lemma is_empty_abs d : data_ok d -> is_empty d = true -> abs d = l_empty.
 Proof.
-  destruct d as [b s c o f]. intros [_ H2]. unfold is_empty. cbn in *. intro H.
+  destruct d as [b s c o f dp]. intros [_ H2]. unfold is_empty. cbn in *. intro H.
   apply andb_true_iff in H as [H Hf]. apply andb_true_iff in H as [H Hc].
   apply andb_true_iff in H as [Hb Hs]. apply Z.eqb_eq in Hb. apply N.eqb_eq in Hf.
-  destruct s; [discriminate|]. destruct c; [discriminate|]. rewrite H2 by reflexivity.
+  destruct s; [discriminate|]. destruct c; [discriminate|]. destruct (H2 eq_refl) as [-> ->].
   subst. reflexivity.
 Qed.
 
@@ -218,7 +218,7 @@ Proof.
 Qed.
 
 Lemma data_value_abs d k : data_value d k = am_get (l_store (abs d)) k.
-Proof. destruct d as [b [m|] c o f]; reflexivity. Qed.
+Proof. destruct d as [b [m|] c o f dp]; reflexivity. Qed.
 
 Lemma read_data_abs d q : read_data d q = read_l (abs d) q.
 Proof. destruct q; cbn; try reflexivity. now rewrite data_value_abs. Qed.
@@ -235,7 +235,7 @@ Qed.
 
 Lemma set_balance_abs s v :
   abs (live (a_set_balance s v)) =
-  mkL v (l_store (abs (live s))) (l_isc (abs (live s))) (l_own (abs (live s))) (l_flg (abs (live s))).
+  mkL v (l_store (abs (live s))) (l_isc (abs (live s))) (l_own (abs (live s))) (l_flg (abs (live s))) (l_dep (abs (live s))).
 Proof.
   unfold a_set_balance. destruct (_ =? _)%Z eqn:E; [|reflexivity].
   apply Z.eqb_eq in E. subst. now destruct (live s).
@@ -253,10 +253,10 @@ Qed.
 Lemma delete_value_abs h s k : astate_ok h s ->
   abs (live (fst (a_delete_value s k))) =
     mkL (l_bal (abs (live s))) (am_del k (l_store (abs (live s)))) (l_isc (abs (live s)))
-        (l_own (abs (live s))) (l_flg (abs (live s))) /\
+        (l_own (abs (live s))) (l_flg (abs (live s))) (l_dep (abs (live s))) /\
   snd (a_delete_value s k) = am_get (l_store (abs (live s))) k.
 Proof.
-  intro H. unfold a_delete_value. destruct (live s) as [b st c o f] eqn:El. cbn.
+  intro H. unfold a_delete_value. destruct (live s) as [b st c o f dp] eqn:El. cbn.
   destruct st as [m|]; cbn; [|rewrite El; split; reflexivity].
   destruct (am_get m k) as [[|b' r]|] eqn:Eg; cbn.
   - exfalso. destruct H as [[H1 _] _]. rewrite El in H1. exact (H1 m eq_refl k [] Eg eq_refl).
@@ -276,11 +276,11 @@ Lemma set_value_abs h s k v : astate_ok h s ->
   abs (live (fst (a_set_value s k v))) =
     mkL (l_bal (abs (live s)))
         (match v with [] => am_del k (l_store (abs (live s))) | _ => am_set k v (l_store (abs (live s))) end)
-        (l_isc (abs (live s))) (l_own (abs (live s))) (l_flg (abs (live s))) /\
+        (l_isc (abs (live s))) (l_own (abs (live s))) (l_flg (abs (live s))) (l_dep (abs (live s))) /\
   snd (a_set_value s k v) = am_get (l_store (abs (live s))) k.
 Proof.
   intro H. unfold a_set_value. destruct v as [|b r]; [now apply (delete_value_abs h)|].
-  cbn. destruct (live s) as [bl [m|] c o f]; cbn; split; reflexivity.
+  cbn. destruct (live s) as [bl [m|] c o f dp]; cbn; split; reflexivity.
 Qed.
 
 Lemma init_contract_ok h s owner : astate_ok h s -> astate_ok h (fst (a_init_contract s owner)).
@@ -293,9 +293,9 @@ Lemma init_contract_abs s owner :
   (l_isc (abs (live s)) = true /\ a_init_contract s owner = (s, false)) \/
   (l_isc (abs (live s)) = false /\ snd (a_init_contract s owner) = true /\
    abs (live (fst (a_init_contract s owner))) =
-     mkL (l_bal (abs (live s))) (l_store (abs (live s))) true (Some owner) (l_flg (abs (live s)))).
+     mkL (l_bal (abs (live s))) (l_store (abs (live s))) true (Some owner) (l_flg (abs (live s))) (l_dep (abs (live s)))).
 Proof.
-  unfold a_init_contract. destruct (live s) as [b st c o f]; cbn. destruct c; [left|right]; auto.
+  unfold a_init_contract. destruct (live s) as [b st c o f dp]; cbn. destruct c; [left|right]; auto.
 Qed.
 
 Lemma set_block_ok h s b : astate_ok h s -> astate_ok h (a_set_block s b).
@@ -308,9 +308,9 @@ Lemma set_block_abs s b :
   abs (live (a_set_block s b)) =
   mkL (l_bal (abs (live s))) (l_store (abs (live s))) (l_isc (abs (live s))) (l_own (abs (live s)))
       (if Bool.eqb (flag_on (l_flg (abs (live s))) AS_BLOCKED) b then l_flg (abs (live s))
-       else N.lxor (l_flg (abs (live s))) AS_BLOCKED).
+       else N.lxor (l_flg (abs (live s))) AS_BLOCKED) (l_dep (abs (live s))).
 Proof.
-  unfold a_set_block. destruct (live s) as [bl st c o f] eqn:E; cbn.
+  unfold a_set_block. destruct (live s) as [bl st c o f dp] eqn:E; cbn.
   destruct (Bool.eqb _ _); [rewrite E|]; reflexivity.
 Qed.
 
@@ -325,11 +325,40 @@ Lemma set_disable_abs s b :
   abs (live (a_set_disable s b)) =
   mkL (l_bal (abs (live s))) (l_store (abs (live s))) (l_isc (abs (live s))) (l_own (abs (live s)))
       (if l_isc (abs (live s)) && negb (Bool.eqb (flag_on (l_flg (abs (live s))) AS_DISABLED) b)
-       then N.lxor (l_flg (abs (live s))) AS_DISABLED else l_flg (abs (live s))).
+       then N.lxor (l_flg (abs (live s))) AS_DISABLED else l_flg (abs (live s))) (l_dep (abs (live s))).
 Proof.
-  unfold a_set_disable. destruct (live s) as [bl st c o f] eqn:E; cbn.
+  unfold a_set_disable. destruct (live s) as [bl st c o f dp] eqn:E; cbn.
   destruct c; cbn; [|now rewrite E]. destruct (Bool.eqb _ _); cbn; [rewrite E|]; reflexivity.
 Qed.
+
+(* --- the deposit operations --- *)
+Lemma data_ok_with_dep d dl : data_ok d -> d_isc d = true -> data_ok (with_dep d dl).
+Proof. intros [H1 H2] Hc. split; cbn; [exact H1|]. rewrite Hc. discriminate. Qed.
+
+Lemma add_deposit_ok h s c v : astate_ok h s -> astate_ok h (fst (a_add_deposit s c v)).
+Proof.
+  intro H. unfold a_add_deposit. destruct (d_isc (live s)) eqn:Ec; [|exact H].
+  destruct (dl_add c v (d_dep (live s))); [|exact H]. cbn. apply astate_ok_dirty.
+  apply data_ok_with_dep; [apply H|exact Ec].
+Qed.
+
+Lemma withdraw_deposit_ok h s c id v : astate_ok h s -> astate_ok h (fst (a_withdraw_deposit s c id v)).
+Proof.
+  intro H. unfold a_withdraw_deposit. destruct (d_isc (live s)) eqn:Ec; [|exact H].
+  destruct (dl_withdraw c id v (d_dep (live s))) as [[[am pen] dl]|]; [|exact H]. cbn. apply astate_ok_dirty.
+  apply data_ok_with_dep; [apply H|exact Ec].
+Qed.
+
+Lemma pay_steps_ok h s c st : astate_ok h s -> astate_ok h (fst (a_pay_steps s c st)).
+Proof.
+  intro H. unfold a_pay_steps. destruct (d_isc (live s)) eqn:Ec; [|exact H].
+  destruct (c_on c && _); [|exact H].
+  destruct (dl_pay c st (d_dep (live s))) as [[dl paid] byd]. cbn. apply astate_ok_dirty.
+  apply data_ok_with_dep; [apply H|exact Ec].
+Qed.
+
+Lemma abs_with_dep d dl : abs (with_dep d dl) = l_with_dep (abs d) dl.
+Proof. reflexivity. Qed.
 
 (* --- GetSnapshot / Reset / Clear / newAccountState --- *)
 Lemma get_snapshot_spec h s : astate_ok h s ->
@@ -798,7 +827,7 @@ Theorem step_sim s sp o : sim s sp ->
   snd (step s o) = snd (spec_step sp o) /\ sim (fst (step s o)) (fst (spec_step sp o)).
 Proof.
   intro Hsim. pose proof Hsim as ([Hw Hs] & Hcur & Hsn & Hfl).
-  destruct o as [a|a v|a k v|a k|a owner|a b|a b|[a|a|i a|i a] q| |i| |i|i|i|i]; cbn [step spec_step].
+  destruct o as [a|a v|a k v|a k|a owner|a b|a b|a c v|a c id v|a c steps|[a|a|i a|i a] q| |i| |i|i|i|i]; cbn [step spec_step].
   - (* OTouch *)
     pose proof (w_touch_spec (s_heap s) (s_ws s) a Hw) as Ht. cbv zeta in Ht.
     destruct Ht as (Hw' & _ & _ & _ & _ & Hv). split; [reflexivity|]. cbn.
@@ -830,6 +859,58 @@ Proof.
   - (* OSetDisable *)
     apply sim_modify; [exact Hsim|intros; now apply set_disable_ok|]. intros h st Hst Ha. cbn.
     split; [|reflexivity]. now rewrite set_disable_abs, Ha.
+  - (* OAddDeposit *)
+    destruct (l_isc (sp_cur sp a)) eqn:Ec.
+    + destruct (dl_add c v (l_dep (sp_cur sp a))) as [dl|] eqn:Ed.
+      * apply sim_modify; [exact Hsim|intros; now apply add_deposit_ok|]. intros h st Hst Ha.
+        unfold a_add_deposit. change (d_isc (live st)) with (l_isc (abs (live st))).
+        change (d_dep (live st)) with (l_dep (abs (live st))). rewrite Ha, Ec, Ed. cbn.
+        rewrite abs_with_dep, Ha. auto.
+      * destruct (sim_modify s sp a (fun st => a_add_deposit st c v) dep_out (sp_cur sp a) (RDep None) Hsim) as [H1 H2].
+        -- intros; now apply add_deposit_ok.
+        -- intros h st Hst Ha. unfold a_add_deposit. change (d_isc (live st)) with (l_isc (abs (live st))).
+           change (d_dep (live st)) with (l_dep (abs (live st))). rewrite Ha, Ec, Ed. cbn. auto.
+        -- split; [exact H1|]. eapply sim_ext; [exact H2|..]; try reflexivity. intro a'. cbn. apply lupd_same.
+    + destruct (sim_modify s sp a (fun st => a_add_deposit st c v) dep_out (sp_cur sp a) RIllegal Hsim) as [H1 H2].
+      * intros; now apply add_deposit_ok.
+      * intros h st Hst Ha. unfold a_add_deposit. change (d_isc (live st)) with (l_isc (abs (live st))).
+        rewrite Ha, Ec. cbn. auto.
+      * split; [exact H1|]. eapply sim_ext; [exact H2|..]; try reflexivity. intro a'. cbn. apply lupd_same.
+  - (* OWithdrawDeposit *)
+    destruct (l_isc (sp_cur sp a)) eqn:Ec.
+    + destruct (dl_withdraw c id v (l_dep (sp_cur sp a))) as [[[am pen] dl]|] eqn:Ed.
+      * apply sim_modify; [exact Hsim|intros; now apply withdraw_deposit_ok|]. intros h st Hst Ha.
+        unfold a_withdraw_deposit. change (d_isc (live st)) with (l_isc (abs (live st))).
+        change (d_dep (live st)) with (l_dep (abs (live st))). rewrite Ha, Ec, Ed. cbn.
+        rewrite abs_with_dep, Ha. auto.
+      * destruct (sim_modify s sp a (fun st => a_withdraw_deposit st c id v) dep_out (sp_cur sp a) (RDep None) Hsim) as [H1 H2].
+        -- intros; now apply withdraw_deposit_ok.
+        -- intros h st Hst Ha. unfold a_withdraw_deposit. change (d_isc (live st)) with (l_isc (abs (live st))).
+           change (d_dep (live st)) with (l_dep (abs (live st))). rewrite Ha, Ec, Ed. cbn. auto.
+        -- split; [exact H1|]. eapply sim_ext; [exact H2|..]; try reflexivity. intro a'. cbn. apply lupd_same.
+    + destruct (sim_modify s sp a (fun st => a_withdraw_deposit st c id v) dep_out (sp_cur sp a) RIllegal Hsim) as [H1 H2].
+      * intros; now apply withdraw_deposit_ok.
+      * intros h st Hst Ha. unfold a_withdraw_deposit. change (d_isc (live st)) with (l_isc (abs (live st))).
+        rewrite Ha, Ec. cbn. auto.
+      * split; [exact H1|]. eapply sim_ext; [exact H2|..]; try reflexivity. intro a'. cbn. apply lupd_same.
+  - (* OPaySteps *)
+    destruct (l_isc (sp_cur sp a)) eqn:Ec.
+    + destruct (c_on c && match l_dep (sp_cur sp a) with [] => false | _ => true end) eqn:Eon.
+      * destruct (dl_pay c steps (l_dep (sp_cur sp a))) as [[dl paid] byd] eqn:Ed.
+        apply sim_modify; [exact Hsim|intros; now apply pay_steps_ok|]. intros h st Hst Ha.
+        unfold a_pay_steps. change (d_isc (live st)) with (l_isc (abs (live st))).
+        change (d_dep (live st)) with (l_dep (abs (live st))). rewrite Ha, Ec, Eon, Ed. cbn.
+        rewrite abs_with_dep, Ha. auto.
+      * destruct (sim_modify s sp a (fun st => a_pay_steps st c steps) dep_out (sp_cur sp a) (RDep (Some (None, None))) Hsim) as [H1 H2].
+        -- intros; now apply pay_steps_ok.
+        -- intros h st Hst Ha. unfold a_pay_steps. change (d_isc (live st)) with (l_isc (abs (live st))).
+           change (d_dep (live st)) with (l_dep (abs (live st))). rewrite Ha, Ec, Eon. cbn. auto.
+        -- split; [exact H1|]. eapply sim_ext; [exact H2|..]; try reflexivity. intro a'. cbn. apply lupd_same.
+    + destruct (sim_modify s sp a (fun st => a_pay_steps st c steps) dep_out (sp_cur sp a) RIllegal Hsim) as [H1 H2].
+      * intros; now apply pay_steps_ok.
+      * intros h st Hst Ha. unfold a_pay_steps. change (d_isc (live st)) with (l_isc (abs (live st))).
+        rewrite Ha, Ec. cbn. auto.
+      * split; [exact H1|]. eapply sim_ext; [exact H2|..]; try reflexivity. intro a'. cbn. apply lupd_same.
   - (* ORead TLive *)
     pose proof (w_touch_spec (s_heap s) (s_ws s) a Hw) as Ht. cbv zeta in Ht.
     destruct (w_touch (s_ws s) a) as [w' st]. cbn [fst snd] in *.
@@ -932,7 +1013,7 @@ Proof. apply (run_sim h init spec_init sim_init). Qed.
 Lemma step_snaps_grow s o : exists l, s_snaps (fst (step s o)) = s_snaps s ++ l.
 Proof.
   assert (H0 : exists l, s_snaps s = s_snaps s ++ l) by (exists []; now rewrite app_nil_r).
-  destruct o as [a|a v|a k v|a k|a owner|a b|a b|[a|a|i a|i a] q| |i| |i|i|i|i]; cbn [step];
+  destruct o as [a|a v|a k v|a k|a owner|a b|a b|a c v|a c id v|a c steps|[a|a|i a|i a] q| |i| |i|i|i|i]; cbn [step];
     unfold s_modify;
     repeat match goal with
     | |- context [w_modify ?w ?a ?f] => destruct (w_modify w a f)
@@ -1060,7 +1141,8 @@ Qed.
 Definition mentions (o : op) (a : aid) : bool :=
   match o with
   | OTouch a' | OSetBalance a' _ | OSetValue a' _ _ | ODelValue a' _ | OInitContract a' _
-  | OSetBlock a' _ | OSetDisable a' _ | ORead (TLive a') _ | ORead (TPeek a') _ => bytes_eqb a' a
+  | OSetBlock a' _ | OSetDisable a' _ | OAddDeposit a' _ _ | OWithdrawDeposit a' _ _ _ | OPaySteps a' _ _
+  | ORead (TLive a') _ | ORead (TPeek a') _ => bytes_eqb a' a
   | _ => false
   end.
 
@@ -1076,9 +1158,16 @@ Proof.
   assert (Hput : forall a' l, bytes_eqb a' a = false ->
             spec_untouched (mkSpec (lupd (sp_cur sp) a' l) (sp_snaps sp) (sp_flushed sp)) a).
   { intros a' l E. split; [|exact Hs]. cbn. unfold lupd. now rewrite E. }
-  destruct o as [a'|a' v|a' k v|a' k|a' owner|a' b|a' b|[a'|a'|i a'|i a'] q| |i| |i|i|i|i];
+  destruct o as [a'|a' v|a' k v|a' k|a' owner|a' b|a' b|a' c v|a' c id v|a' c steps|[a'|a'|i a'|i a'] q| |i| |i|i|i|i];
     cbn [spec_step mentions] in *; try (now apply Hput); try (split; assumption).
   - destruct (l_isc (sp_cur sp a')); [split; assumption|now apply Hput].
+  - destruct (l_isc (sp_cur sp a')); [|split; assumption].
+    destruct (dl_add c v (l_dep (sp_cur sp a'))); [now apply Hput|split; assumption].
+  - destruct (l_isc (sp_cur sp a')); [|split; assumption].
+    destruct (dl_withdraw c id v (l_dep (sp_cur sp a'))) as [[[? ?] ?]|]; [now apply Hput|split; assumption].
+  - destruct (l_isc (sp_cur sp a')); [|split; assumption].
+    destruct (c_on c && _); [|split; assumption].
+    destruct (dl_pay c steps (l_dep (sp_cur sp a'))) as [[? ?] ?]. now apply Hput.
   - destruct (nth_error (sp_snaps sp) i); split; assumption.
   - destruct (nth_error (sp_snaps sp) i); split; assumption.
   - split; [exact Hc|]. cbn. apply Forall_app. split; [exact Hs|]. constructor; [exact Hc|constructor].
@@ -1136,10 +1225,24 @@ Proof.
   - intros H k _. apply opt_bytes_eqb_eq, H.
 Qed.
 
+Lemma deposit_eqb_spec x y : deposit_eqb x y = true <-> x = y.
+Proof.
+  destruct x, y; cbn; try (split; congruence).
+  - rewrite !andb_true_iff, bytes_eqb_eq, !Z.eqb_eq. split; [intros (((((-> & ->) & ->) & ->) & ->) & ->); reflexivity|].
+    intro H. inversion H. tauto.
+  - rewrite Z.eqb_eq. split; congruence.
+Qed.
+
+Lemma deposits_eqb_spec x y : deposits_eqb x y = true <-> x = y.
+Proof.
+  revert y. induction x as [|a x IH]; intros [|b y]; cbn; try (split; congruence).
+  rewrite andb_true_iff, deposit_eqb_spec, IH. split; [intros [-> ->]; reflexivity|]. intro H. inversion H. tauto.
+Qed.
+
 Lemma l_equivb_spec x y : l_equivb x y = true <-> l_equiv x y.
 Proof.
   unfold l_equivb, l_equiv. rewrite !andb_true_iff, Z.eqb_eq, N.eqb_eq, Bool.eqb_true_iff,
-    opt_bytes_eqb_eq, store_equivb_spec. tauto.
+    opt_bytes_eqb_eq, store_equivb_spec, deposits_eqb_spec. tauto.
 Qed.
 
 Lemma trie_equivb_spec t1 t2 : trie_equivb t1 t2 = true <-> trie_equiv t1 t2.
@@ -1157,7 +1260,7 @@ Section HashProofs.
   Variable hash : Type.
   Variable leaf : Type.
   Variable store_root : smap -> hash.
-  Variable acct_leaf : Z -> bool -> option bytes -> N -> option hash -> leaf.
+  Variable acct_leaf : Z -> bool -> option bytes -> N -> list deposit -> option hash -> leaf.
   Variable world_root : amap leaf -> hash.
 
   (* C17 (C17_root_canonical): the root of a trie is a function of its content, not of the
@@ -1173,8 +1276,8 @@ Section HashProofs.
   Lemma leaf_equiv d1 d2 : store_normal d1 -> store_normal d2 ->
     l_equiv (abs d1) (abs d2) -> leaf_of d1 = leaf_of d2.
   Proof.
-    destruct d1 as [b1 s1 c1 o1 f1], d2 as [b2 s2 c2 o2 f2]. unfold store_normal, l_equiv, leaf_of. cbn.
-    intros N1 N2 (-> & -> & -> & -> & Hs). f_equal.
+    destruct d1 as [b1 s1 c1 o1 f1 p1], d2 as [b2 s2 c2 o2 f2 p2]. unfold store_normal, l_equiv, leaf_of. cbn.
+    intros N1 N2 (-> & -> & -> & -> & -> & Hs). f_equal.
     destruct s1 as [m1|], s2 as [m2|]; cbn in *.
     - f_equal. now apply store_root_canonical.
     - exfalso. apply N1. f_equal. apply am_all_none. exact Hs.
@@ -1184,12 +1287,12 @@ Section HashProofs.
 
   Lemma l_equiv_empty_is_empty d : store_normal d -> l_equiv (abs d) l_empty -> is_empty d = true.
   Proof.
-    intros Hn (H1 & H2 & _ & H4 & H5). rewrite is_empty_normal by assumption.
+    intros Hn (H1 & H2 & _ & H4 & _ & H5). rewrite is_empty_normal by assumption.
     unfold l_is_empty. rewrite H1, H2, H4. rewrite (am_all_none (l_store (abs d))); [reflexivity|exact H5].
   Qed.
 
   Lemma l_equiv_sym x y : l_equiv x y -> l_equiv y x.
-  Proof. intros (H1 & H2 & H3 & H4 & H5). repeat split; auto. Qed.
+  Proof. intros (H1 & H2 & H3 & H4 & H5 & H6). repeat split; auto. Qed.
 
   (* two well-formed account tries with the same logical contents have the same hash *)
   Lemma state_hash_ext h1 h2 t1 t2 : trie_ok h1 t1 -> trie_ok h2 t2 -> trie_equiv t1 t2 ->
@@ -1278,7 +1381,7 @@ Example ex_history :
   let s := state_of init ex_hist in
   length (s_snaps s) = 4%nat /\
   option_map (fun t => snap_view t exA) (nth_error (s_snaps s) 0) =
-    Some (Some (mkA 5 (Some [(exK, [7])]) false None 0)) /\
+    Some (Some (mkA 5 (Some [(exK, [7])]) false None 0 [])) /\
   nth_error (s_snaps s) 1 = Some [] /\
   nth_error (s_snaps s) 2 = nth_error (s_snaps s) 0 /\
   nth_error (s_snaps s) 3 = nth_error (s_snaps s) 0 /\
@@ -1318,11 +1421,32 @@ Example ex_never_touched : Forall (fun o => mentions o [12] = false) ex_hist.
 Proof. repeat constructor. Qed.
 
 Example ex_flush_order :
-  let c := [(exA, mkE (dirty (mkA 5 None false None 0)) None); (exB, mkE (dirty (mkA 0 (Some []) false None 0)) None)] in
+  let c := [(exA, mkE (dirty (mkA 5 None false None 0 [])) None); (exB, mkE (dirty (mkA 0 (Some []) false None 0 [])) None)] in
   Permutation c (rev c) /\ NoDup (map fst c) /\ trie_ok [] [] /\ (forall a e, In (a, e) c -> entry_ok [] [] a e).
 Proof.
   cbv zeta. split; [apply Permutation_rev|]. split.
   { constructor; [cbn; intros [H|[]]; discriminate|constructor; [intros []|constructor]]. }
   split; [apply trie_ok_nil|]. intros a e [H|[H|[]]]; inversion H; subst; (split; [apply astate_ok_dirty|reflexivity]);
-    (split; cbn; [|reflexivity]); intros m Hm; inversion Hm; subst; try apply vals_ok_nil.
+    (split; cbn; [|intros _; split; reflexivity]); intros m Hm; inversion Hm; subst; try apply vals_ok_nil.
 Qed.
+
+(* deposits: snapshot, pay a fee from the deposit, add to it, snapshot; the first snapshot keeps
+   the old deposit and Reset brings it back *)
+Definition ex_ctx (h : Z) : dctx := mkDC 100 h 0 8 [1] true.
+Definition ex_dep_hist : list op :=
+  [OInitContract exA [9]; OAddDeposit exA (ex_ctx 10) 50000; OGetSnapshot;
+   OPaySteps exA (ex_ctx 11) 120; OAddDeposit exA (ex_ctx 11) 7000; OGetSnapshot;
+   ORead (TSnap 0 exA) QDeposits; ORead (TSnap 1 exA) QDeposits;
+   OAddDeposit exA (mkDC 100 12 100 8 [1] true) 50000; OPaySteps exA (ex_ctx 13) 100;
+   OWithdrawDeposit exA (ex_ctx 14) [] None; ORead (TLive exA) QDeposits;
+   OReset 0; ORead (TLive exA) QDeposits; OAddDeposit exB (ex_ctx 15) 5].
+
+Example ex_deposits :
+  outs_of init ex_dep_hist =
+    [RBool true; RDep (Some (None, None)); RUnit;
+     RDep (Some (Some 120, Some 120))%Z; RDep (Some (None, None)); RUnit;
+     RDeps [DV2 50000]; RDeps [DV2 45000];
+     RDep (Some (None, None)); RDep (Some (Some 100, None))%Z;
+     RDep (Some (Some 45000, Some 0))%Z; RDeps [DV1 [1] 50000 50000 112 40 0];
+     RUnit; RDeps [DV2 50000]; RIllegal].
+Proof. vm_compute. reflexivity. Qed.
